@@ -41,9 +41,16 @@ if tests:
     res["stable_pass_tests_broken"] = bad
     print("stable-pass tests broken by the patch:", len(bad), bad[:5])
 out = {}
+# private copy of the Coq tree / build / evidence directories: seed evaluations may run side by side and never
+# disturb the generated files or the evidence of /verif itself
+alt = f"/verif/build/alt/{name}"
+shutil.rmtree(alt, ignore_errors=True)
+os.makedirs(alt + "/build"); os.makedirs(alt + "/evid")
+sh(f"cp -a /verif/coq {alt}/coq")
+altenv = f"VERIF_COQ={alt}/coq VERIF_BUILD={alt}/build VERIF_EVID={alt}/evid"
 for c in checks:
     t0 = time.time()
-    r = sh(f"cd /verif && SCICO_REPO={wt} ./check {c} --tier quick")
+    r = sh(f"cd /verif && {altenv} SCICO_REPO={wt} ./check {c} --tier quick")
     lines = [l for l in r.stdout.splitlines() if l.startswith(("VIOLATION", "KNOWN-FINDING", "BROKEN", c + " quick"))]
     viol = [l for l in lines if l.startswith("VIOLATION")]
     out[c] = {"exit": r.returncode, "violations": viol, "summary": [l for l in lines if l.startswith(c + " quick")], "wall_s": round(time.time() - t0)}
@@ -57,10 +64,12 @@ for c in checks:
             reps.append({"unit": d.get("unit"), "what": d.get("what") or d.get("kind"), "file": os.path.basename(path)})
     out[c]["replays"] = reps
 sh(f"git -C {wt} checkout -- .")
+shutil.rmtree(alt, ignore_errors=True)
 dst = f"/verif/seeded/{name}"
 os.makedirs(dst, exist_ok=True)
 for f in ("patch.diff", "demo.py"):
-    shutil.copy(f"{src}/{f}", dst)
+    if os.path.realpath(f"{src}/{f}") != os.path.realpath(f"{dst}/{f}"):
+        shutil.copy(f"{src}/{f}", dst)
 meta = json.load(open(f"{src}/meta.json"))
 meta["confirmed"] = res
 meta["checks_run"] = out
